@@ -591,9 +591,13 @@ func ParentMain(id, tier string, seed int64) int {
 		cov["samples"] = []any{"(no samples recorded)"}
 	}
 	b, _ := json.MarshalIndent(ev, "", " ")
-	os.MkdirAll(filepath.Join(Root, "evidence"), 0o755)
+	evDir := filepath.Join(Root, "evidence")
+	if d := os.Getenv("VERIF_EVIDENCE_DIR"); d != "" {
+		evDir = d // mutant runs must not overwrite genuine evidence
+	}
+	os.MkdirAll(evDir, 0o755)
 	if !harness {
-		os.WriteFile(filepath.Join(Root, "evidence", id+".json"), b, 0o644)
+		os.WriteFile(filepath.Join(evDir, id+".json"), b, 0o644)
 	}
 	var secStr []string
 	for _, s := range secList {
